@@ -32,6 +32,7 @@ type Sched struct {
 	// MaxSteps bounds one execution (a livelock guard); 0 = 10000.
 	MaxSteps int
 	steps    int
+	envSteps int
 	// OnStep, when set, is called before each scheduling decision (all threads quiescent); returning
 	// false stops the execution (state-key pruning).
 	OnStep  func(s *Sched) bool
@@ -215,6 +216,9 @@ func (s *Sched) Run() bool {
 			case t.enabled():
 				en = append(en, t)
 				allDone = false
+			case t.Auto && t.state.Load() == stRunning:
+				// an adopted background goroutine (timer callback, watcher loop) that went back to waiting
+				// for its next event: it never "finishes" and does not keep the execution alive
 			default:
 				allDone = false
 				if t.state.Load() == stRunning {
@@ -226,7 +230,8 @@ func (s *Sched) Run() bool {
 			return true
 		}
 		if len(en) == 0 {
-			if blocked > 0 && s.EnvStep != nil && s.EnvStep() {
+			s.envSteps++
+			if blocked > 0 && s.EnvStep != nil && s.envSteps < 100000 && s.EnvStep() {
 				continue
 			}
 			var w []string
@@ -281,4 +286,12 @@ func (s *Sched) Abandon() {
 	s.OnStep = nil
 	s.ch = NewChooser(nil)
 	s.Run()
+}
+
+// Choose lets a managed thread or the harness draw an environment answer from the execution's
+// choice sequence (so that it is enumerated and replayed like scheduling decisions).
+func (s *Sched) Choose(n int, label string, cost func(int) int) int {
+	s.mu.Lock()
+	defer s.mu.Unlock()
+	return s.ch.Choose(n, label, cost)
 }
